@@ -147,6 +147,11 @@ ERROR_NO_MATCHING_OVERLOAD_FUNCTION_CALL = ErrorMessage(
     Severity.ERROR,
     """No matching overload found for function call: '{}'.""",
 )
+ERROR_FUNCTION_WITHOUT_BODY = ErrorMessage(
+    2104,
+    Severity.ERROR,
+    """Function '{}' is declared without a body.""",
+)
 
 ERROR_CONTINUE_OUTSIDE_FLOW = ErrorMessage(
     2201,
